@@ -13,11 +13,15 @@ import (
 	"sort"
 	"strings"
 
+	bufcli "github.com/bufbuild/buf/private/buf/cmd/buf"
 	"github.com/bufbuild/buf/private/bufpkg/bufcas"
 	"github.com/bufbuild/buf/private/bufpkg/bufconfig"
 	"github.com/bufbuild/buf/private/bufpkg/bufmodule"
 	"github.com/bufbuild/buf/private/bufpkg/bufmodule/bufmodulestore"
 	"github.com/bufbuild/buf/private/bufpkg/bufprotoplugin/bufprotopluginos"
+	"github.com/bufbuild/buf/private/gen/data/datawkt"
+	"github.com/bufbuild/buf/private/pkg/app"
+	"github.com/bufbuild/buf/private/pkg/app/appcmd"
 	"github.com/bufbuild/buf/private/pkg/filelock"
 	"github.com/bufbuild/buf/private/pkg/slogext"
 	"github.com/bufbuild/buf/private/pkg/storage"
@@ -29,11 +33,12 @@ import (
 	"github.com/bufbuild/verif/engine"
 	"github.com/bufbuild/verif/gen"
 	"github.com/bufbuild/verif/modgen"
-	"google.golang.org/protobuf/proto"
-	"google.golang.org/protobuf/types/pluginpb"
 	"github.com/bufbuild/verif/sched"
 	"github.com/bufbuild/verif/simfs"
 	"github.com/bufbuild/verif/tape"
+	"github.com/bufbuild/verif/wsgen"
+	"google.golang.org/protobuf/proto"
+	"google.golang.org/protobuf/types/pluginpb"
 )
 
 // caseData is one generated case.
@@ -47,6 +52,9 @@ type caseData struct {
 	zipData []byte
 	par     int
 	u       *modgen.Universe
+	ws      *wsgen.Workspace
+	sim     *sched.Sim
+	srcDir  string // cli: the workspace on disk
 }
 
 type dest struct {
@@ -63,7 +71,9 @@ type writePath struct {
 	stream  bool // destination is an io.Writer
 	modules bool // needs a module universe
 	osOnly  bool // destination is always a real directory (reached through a storageos.Provider)
-	run    func(ctx context.Context, c *caseData, d *dest) error
+	rawDst  bool // the code writes the destination file itself (faults come from the raw hooks below)
+	cli     bool // a CLI command run in-process on a generated workspace; it opens the destination itself (raw hooks)
+	run     func(ctx context.Context, c *caseData, d *dest) error
 }
 
 func srcBucket(c *caseData) storage.ReadBucket {
@@ -231,6 +241,28 @@ func init() {
 			}
 			return bufconfig.PutBufGenYAMLFileForPrefix(ctx, d.bucket, ".", f)
 		}},
+		&writePath{name: "buf export", osOnly: true, cli: true, run: func(ctx context.Context, c *caseData, d *dest) error {
+			// the real command: reads the workspace from disk, builds the image, writes every file of it
+			// that the workspace (not the built-in copy) supplies into the output directory
+			// (the first scheduling point makes this task the one that "runs now" for the raw hooks)
+			if dec := c.sim.Yield(ctx, "start", "cli", sched.NoFault()); dec.Dead {
+				return sched.ErrCrashed
+			}
+			var stdout, stderr bytes.Buffer
+			env := map[string]string{"HOME": filepath.Join(c.srcDir, "..", "home"), "BUF_CACHE_DIR": filepath.Join(c.srcDir, "..", "cache"), "PATH": ""}
+			container := app.NewContainer(env, strings.NewReader(""), &stdout, &stderr, "buf", "export", c.srcDir, "-o", d.dir)
+			err := appcmd.Run(ctx, container, bufcli.NewRootCommand("buf"))
+			if err == nil && stderr.Len() > 0 && strings.Contains(stderr.String(), "Failure") {
+				return fmt.Errorf("stderr: %s", stderr.String())
+			}
+			return err
+		}},
+		&writePath{name: "PluginResponseWriter(zip)", osOnly: true, rawDst: true, run: func(ctx context.Context, c *caseData, d *dest) error {
+			return writePluginArchive(ctx, c, d, "gen.zip")
+		}},
+		&writePath{name: "PluginResponseWriter(jar)", osOnly: true, rawDst: true, run: func(ctx context.Context, c *caseData, d *dest) error {
+			return writePluginArchive(ctx, c, d, "out/gen.jar")
+		}},
 		&writePath{name: "PluginResponseWriter(dir)", osOnly: true, run: func(ctx context.Context, c *caseData, d *dest) (retErr error) {
 			// generated files are staged in memory and flushed on Close
 			w := bufprotopluginos.NewResponseWriter(slogext.NopLogger, d.provider, bufprotopluginos.ResponseWriterWithCreateOutDirIfNotExists())
@@ -244,6 +276,42 @@ func init() {
 			return w.Close()
 		}},
 	)
+}
+
+// writePluginArchive: generated files of two plugins (the second inserts into the first one's
+// file) staged in memory and written as one archive when the response writer is closed.
+func writePluginArchive(ctx context.Context, c *caseData, d *dest, name string) error {
+	if dec := c.sim.Yield(ctx, "start", "archive", sched.NoFault()); dec.Dead {
+		return sched.ErrCrashed
+	}
+	w := bufprotopluginos.NewResponseWriter(slogext.NopLogger, d.provider, bufprotopluginos.ResponseWriterWithCreateOutDirIfNotExists())
+	resp := &pluginpb.CodeGeneratorResponse{}
+	for _, p := range c.paths {
+		resp.File = append(resp.File, &pluginpb.CodeGeneratorResponse_File{Name: proto.String(p), Content: proto.String(string(c.files[p]) + "\n// @@protoc_insertion_point(tail)\n")})
+	}
+	out := filepath.Join(d.dir, filepath.FromSlash(name))
+	if err := os.MkdirAll(filepath.Dir(out), 0o755); err != nil {
+		return fmt.Errorf("harness: %w", err)
+	}
+	if err := w.AddResponse(ctx, resp, out); err != nil {
+		return err
+	}
+	second := &pluginpb.CodeGeneratorResponse{File: []*pluginpb.CodeGeneratorResponse_File{
+		{Name: proto.String(c.paths[0]), InsertionPoint: proto.String("tail"), Content: proto.String("inserted")},
+		{Name: proto.String("second/extra.txt"), Content: proto.String("from the second plugin")},
+	}}
+	if err := w.AddResponse(ctx, second, out); err != nil {
+		return err
+	}
+	return w.Close()
+}
+
+func wktContent(path string) string {
+	data, err := storage.ReadPath(context.Background(), datawkt.ReadBucket, path)
+	if err != nil {
+		panic(err)
+	}
+	return string(data)
 }
 
 func putModules(ctx context.Context, c *caseData, d *dest, tar bool) error {
@@ -374,6 +442,11 @@ func (r *runner) newDest(c *caseData) *dest {
 		sb := &simfs.Bucket{S: r.s, U: raw, Name: "dst", Hooks: r.hooks}
 		d.bucket = sb
 		d.provider = &simProvider{r: r}
+		r.hooks.RawRoot = ""
+		if c.wp.cli || c.wp.rawDst {
+			// nobody hands this code a bucket: faults are injected from the hooks below storageos
+			r.hooks.RawRoot, r.hooks.RawName = dir, "dst"
+		}
 		if kind == "osmap" {
 			// the real prefix-mapping code sits between the write path and the faults
 			d.raw = storage.MapReadWriteBucket(raw, storage.MapOnPrefix("sub/dir"))
@@ -487,6 +560,9 @@ func diffState(want, got map[string]string) string {
 }
 
 func faultKindsFor(c *caseData, kind string) []string {
+	if (c.wp.cli || c.wp.rawDst) && kind == "close" && !c.atomic {
+		return []string{"close-err"}
+	}
 	switch kind {
 	case "put":
 		return []string{"put-err"}
@@ -519,8 +595,16 @@ func Run(tp *tape.Tape, env *engine.Env) *engine.Outcome {
 		return out
 	}
 
-	c := &caseData{}
+	c := &caseData{sim: s}
 	c.wp = tape.Pick(tp, "writepath", writePaths)
+	if want := os.Getenv("VERIF_WRITEPATH"); want != "" {
+		// debugging aid: force one write path
+		for _, wp := range writePaths {
+			if wp.name == want {
+				c.wp = wp
+			}
+		}
+	}
 	c.files = gen.Files(tp, 1, 6, true)
 	c.paths = gen.SortedPaths(c.files)
 	c.atomic = tp.Draw("atomic", 2) == 1
@@ -536,6 +620,29 @@ func Run(tp *tape.Tape, env *engine.Env) *engine.Outcome {
 	}
 	if c.wp.osOnly {
 		c.dstKind = "os"
+	}
+	if c.wp.cli {
+		c.atomic = false
+		c.ws = wsgen.New(tp, wsgen.Options{MaxModules: 2, MaxFiles: 5, SupplyWKT: wktContent, ForceSupplyWKT: tp.Draw("forcewkt", 2) == 1, NoEditions: true})
+		c.srcDir = filepath.Join(env.Scratch, "cli", "src")
+		var y strings.Builder
+		y.WriteString("version: v2\nmodules:\n")
+		for _, mod := range c.ws.Modules {
+			fmt.Fprintf(&y, "  - path: mod%d\n", mod.Index)
+			for p, content := range mod.ModuleFiles() {
+				full := filepath.Join(c.srcDir, fmt.Sprintf("mod%d", mod.Index), filepath.FromSlash(p))
+				if err := os.MkdirAll(filepath.Dir(full), 0o755); err != nil {
+					panic(err)
+				}
+				if err := os.WriteFile(full, content, 0o644); err != nil {
+					panic(err)
+				}
+			}
+		}
+		if err := os.WriteFile(filepath.Join(c.srcDir, "buf.yaml"), []byte(y.String()), 0o644); err != nil {
+			panic(err)
+		}
+		defer os.RemoveAll(filepath.Join(env.Scratch, "cli"))
 	}
 	var tb, zb bytes.Buffer
 	if err := storagearchive.Tar(context.Background(), srcBucket(c), &tb); err != nil {
